@@ -2,6 +2,7 @@ import TcVerif.Model.Json
 import TcVerif.Model.JsonParse
 import TcVerif.Model.Replica
 import TcVerif.Proofs.JsonUuid
+import TcVerif.Proofs.SrcFromOp
 /-!
 # C14 — What is sent to the server is the documented operation format only  *(partial)*
 
@@ -169,5 +170,12 @@ example : decodeVersion (printVersion [.create 5, .update 5 "a\"b\\\n\x01" (some
     .update 7 "" none (-1)]) =
     some [.create 5, .update 5 "a\"b\\\n\x01" (some "😀") 1700000000123456789, .delete 5, .update 7 "" none (-1)] := by
   decide +kernel
+
+/-- the conversion that decides what leaves the replica is the source's `SyncOp::from_op`
+    (regenerated from `src/server/op.rs` on every run): previous values and old task contents are not
+    among its outputs -/
+theorem C14_source_from_op (ops : List Op) : sentDocument ops = printVersion (ops.filterMap Src.fromOp) := by
+  have : Src.fromOp = Op.toSync := funext src_fromOp_eq
+  rw [this]; rfl
 
 end Tc
